@@ -223,3 +223,31 @@ Example C16_ex_wire_gate :
   is_ok (conv_bytes (ex_parray 6) false) = true /\
   conv_bytes (ex_parray 7) false = Some (Convert.CErr Convert.CVersion).
 Proof. vm_compute. repeat split; reflexivity. Qed.
+
+(* ---- the blocks of an authorizer snapshot ---------------------------------------------------
+   proto_snapshot_block_to_token_block is a second gate (snapshots are external data): what it
+   accepts declares a supported version that is at least what its content requires.  The 3.2
+   floor of third-party blocks is not part of it: a snapshot block carrying an external key may
+   declare 3.0 (an observation, shown by the example; the declared version only gates features,
+   evaluation does not read it, and the library itself writes snapshot blocks from loaded tokens,
+   which went through the first gate). *)
+Theorem C16_snapshot_gate_sound :
+  forall (canon : Z -> Bytes.bytes -> option Bytes.bytes) (p : Convert.psnap) (b : Convert.iblock) (ext : option Token.wkey),
+    Convert.conv_snapshot_block canon p = Convert.SOk b ext ->
+    3 <= Convert.ib_version b <= 6 /\
+    required (mkblock (map Convert.shape_fact (Convert.ib_facts b)) (map Convert.shape_rule (Convert.ib_rules b))
+                      (map Convert.shape_check (Convert.ib_checks b)) (map Convert.shape_scope (Convert.ib_scopes b))
+                      (Convert.ib_version b) false) <= Convert.ib_version b.
+Proof. exact ConvertProofs.conv_snapshot_gate_sound. Qed.
+Print Assumptions C16_snapshot_gate_sound.
+
+Definition ex_snap (v : N) (k : option Token.wkey) (t : BlockWire.pterm) : Convert.psnap :=
+  Convert.mkpsnap None (Some v) [BlockWire.mkppred 1024 [t]] [] [] [] k.
+Definition is_sok (r : Convert.sres) : bool := match r with Convert.SOk _ _ => true | _ => false end.
+Example C16_ex_snapshot_gate :
+  is_sok (Convert.conv_snapshot_block ex_anykey (ex_snap 3 None (BlockWire.PTInteger 1%Z))) = true /\
+  Convert.conv_snapshot_block ex_anykey (ex_snap 5 None BlockWire.PTNull) = Convert.SErr Convert.CDeser /\
+  is_sok (Convert.conv_snapshot_block ex_anykey (ex_snap 6 None BlockWire.PTNull)) = true /\
+  Convert.conv_snapshot_block ex_anykey (ex_snap 2 None (BlockWire.PTInteger 1%Z)) = Convert.SErr Convert.CVersion /\
+  is_sok (Convert.conv_snapshot_block ex_anykey (ex_snap 3 (Some (Token.mkwkey 1%Z [2; 3])) (BlockWire.PTInteger 1%Z))) = true.
+Proof. vm_compute. repeat split; reflexivity. Qed.
